@@ -248,6 +248,11 @@ fn server_alts() -> Vec<String> {
         format!("OK {}", &GUID[..31]),
         format!("OK {GUID}0"),
         format!("OK {}g", &GUID[..31]),
+        format!("OK +{}", &GUID[..31]),
+        format!("OK -{}", &GUID[..31]),
+        format!("OK {}_{}", &GUID[..15], &GUID[..16]),
+        format!("OK 0x{}", &GUID[..30]),
+        format!("OK {} ", &GUID[..31]),
         format!("OK {}-{}-{}-{}-{}", &GUID[..8], &GUID[8..12], &GUID[12..16], &GUID[16..20], &GUID[20..]),
         "OK".into(),
         "REJECTED EXTERNAL".into(),
